@@ -175,6 +175,8 @@ func tail(s string, n int) string {
 	return s
 }
 
+var oomBlock = regexp.MustCompile(`cannot allocate (\d+)-byte block`)
+
 // crashInfo classifies a fatal runtime error from the worker's stderr.
 func crashInfo(stderr string) (class, site, msg string) {
 	msg = "worker died without a Go crash report"
@@ -200,6 +202,13 @@ func crashInfo(stderr string) (class, site, msg string) {
 	if i := strings.Index(stderr, "\ngoroutine "); i >= 0 {
 		if fs := repoFrames(stderr[i+1:], "goroutine "); len(fs) > 0 {
 			site = normSite(fs[0])
+		}
+	}
+	// address space exhausted by a small request: the memory went into many
+	// earlier allocations, the request that happened to fail is arbitrary
+	if m := oomBlock.FindStringSubmatch(stderr); m != nil && class == "alloc>budget" {
+		if n, err := strconv.ParseUint(m[1], 10, 64); err == nil && n < 16<<20 {
+			site = "many-small"
 		}
 	}
 	return
@@ -906,7 +915,7 @@ func main() {
 	assumptions := []string{
 		"small-scope hypothesis: hostile inputs are the stated byte strings of length <= L, single (thorough: double) 4-byte field mutations and prefixes of valid encodings, and short token sequences; longer random inputs are not explored",
 		"the allocation account is runtime.MemStats.TotalAlloc (cumulative bytes allocated, an upper bound of the memory in use) around the call in a GOMAXPROCS=1 worker; when the average object allocated by the case is >= 256 KiB the allocation site is the first repository frame of the heaviest heap-profile record (or of the crash trace), otherwise the site is 'many-small'",
-		"the time oracle is a 10 s wall-clock watchdog against microsecond-scale normal cost; the site of a time violation is the innermost repository function present in every CPU-profiler sample (3 s at 100 Hz) of the spinning goroutine, or 'deep-recursion' when the samples exceed the profiler's 64-frame limit",
+		"the time oracle is a 10 s wall-clock watchdog against microsecond-scale normal cost; the site of a time violation is the last repository function of the call-stack prefix common to every CPU-profiler sample (3 s at 100 Hz) of the spinning goroutine, or 'deep-recursion' when the samples exceed the profiler's 64-frame limit",
 		"the generated ServiceDirectory stub is driven with a fake implementor; action 109 (_socketOfService, unexported) is excluded; stubServiceZero.Authenticate is unreachable from outside package bus (action 8 is intercepted by the generic object) and is not driven",
 		"readers are in-memory (bytes.Reader): read fragmentation is C01's subject",
 		"fingerprints listed in known-findings.txt are reported from the enumeration's observation; unlisted fingerprints are reported only if a witness reproduces 5/5 alone in a fresh worker",
